@@ -89,6 +89,8 @@ def run_sweep(case: Dict[str, Any]) -> Dict[str, Any]:
             continue
         a = rnd.choice(by_head[u])  # origin link ends at u
         b = rnd.choice(by_tail[v])  # destination link starts at v
+        if a.link_id == b.link_id and a.start == b.end:
+            continue  # one zero-extent link taken as both ends: origin and destination coincide, the route is empty
         r = rn.route(EntityPosition(a.link_id, a.start), EntityPosition(b.link_id, b.end))
         cnt["c14_routes"] += 1
         if len(r) < 2:
@@ -129,6 +131,8 @@ def build_cases(tier, seed):
     ngrid, per = (24, 1500) if tier == "quick" else (640, 4000)
     for j in range(ngrid):
         net = {"type": "grid", "n": rnd.randint(4, 9), "seed": rnd.randint(0, 10**6), "speeds": rnd.choice(["varied", "varied", "mixed", "slow"]), "oneway": rnd.choice([0.0, 0.2, 0.4]), "delete": rnd.choice([0.0, 0.1, 0.2]), "dlat": rnd.choice([0.001, 0.002, 0.01]), "dlon": rnd.choice([0.0012, 0.0025, 0.012]), "stretch": rnd.choice([1.0, 1.3, 2.0])}
+        if j % 4 == 2:
+            net["stubs"] = rnd.choice([0.2, 0.4])
         if j % 3 == 1:
             net.update({"missing_speed": rnd.choice([0.2, 0.5]), "default_speed_kmph": rnd.choice([10.0, 100.0, 130.0])})
         cases.append({"engine": "c14_sweep", "id": f"C14-grid{j}", "seed": seed * 1000 + j, "net": net, "n": per})
